@@ -32,6 +32,7 @@ class Gen:
         self.clean = clean
         self.known = []        # keys probably in context
         self.tainted = set()   # keys that may hold a definition object
+        self.types = {}        # key -> 'l' | 'd' | 'i' (best guess)
 
     def pick_key(self, prefer_known=0.85):
         if self.known and self.rng.random() < prefer_known:
@@ -58,8 +59,23 @@ class Gen:
         ks = self.rng.sample(SUB_KEYS, self.rng.randint(0, 3))
         return {'d': [[k, self.arg_tree(depth - 1)] for k in ks]}
 
-    def target(self, in_keys):
-        """key a mutating step acts on."""
+    def type_of(self, t):
+        if isinstance(t, int):
+            return 'i'
+        if 'ref' in t:
+            return self.types.get(t['ref'][1], '?')
+        return 'l' if 'l' in t else 'd'
+
+    def target(self, in_keys, want=None):
+        """key a mutating step acts on (preferably one holding a `want`-typed value)."""
+        if want and self.rng.random() < 0.85:
+            pool = [k for k in self.known if self.types.get(k) == want
+                    and not (self.clean and k in self.tainted)]
+            inpool = [k for k in pool if k in in_keys]
+            if inpool and not self.clean and self.rng.random() < 0.6:
+                return self.rng.choice(inpool)
+            if pool:
+                return self.rng.choice(pool)
         if self.clean:
             cands = [k for k in self.known if k not in self.tainted]
             if cands and self.rng.random() < 0.9:
@@ -94,6 +110,7 @@ class Gen:
         in_keys = rng.sample(DATA_KEYS, n_in)
         for k in in_keys:
             st['in'].append([k, data_tree(rng, 2, container=rng.random() < 0.85)])
+            self.types[k] = self.type_of(st['in'][-1][1])
         saved_known, saved_taint = list(self.known), set(self.tainted)
         self.known = self.known + [k for k in in_keys if k not in self.known]
         self.tainted |= set(in_keys)
@@ -118,14 +135,16 @@ class Gen:
         if kind != 'set' and rng.random() < 0.18:
             st['foreach'] = [self.arg_tree(1) for _ in range(rng.randint(1, 3))]
             bound('i', any(self.taints(t) for t in st['foreach']))
+            self.types['i'] = self.type_of(st['foreach'][-1])
         if kind == 'set':
             st['pairs'] = []
             for k in rng.sample(DATA_KEYS, rng.randint(1, 2)):
                 t = self.arg_tree(2)
                 st['pairs'].append([k, t])
                 bound(k, self.taints(t))
+                self.types[k] = self.type_of(t)
         elif kind == 'append':
-            k = self.target(in_keys)
+            k = self.target(in_keys, 'l')
             st['list'] = k
             st['mode'] = rng.choice(['key', 'key', 'ff', 'py'])
             st['addMe'] = self.arg_tree(1) if not self.clean else self.clean_tree(1)
@@ -133,20 +152,23 @@ class Gen:
                 st['addMe'] = no_self(st['addMe'], k)
             if st['mode'] == 'key':
                 bound(k, k in self.tainted or self.taints(st['addMe']))
+                self.types.setdefault(k, 'l')
         elif kind in ('merge', 'default'):
             st['pairs'] = []
-            for k in ([self.target(in_keys)] + rng.sample(DATA_KEYS, rng.randint(0, 1))):
-                if any(k == kk for kk, _ in st['pairs']):
+            for k in ([self.target(in_keys, rng.choice(['l', 'd', 'd']))] + rng.sample(DATA_KEYS, rng.randint(0, 1))):
+                if any(k == kk for kk, _ in st['pairs']) or (self.clean and k in self.tainted):
                     continue
                 t = self.arg_tree(2, container=rng.random() < 0.8) if not self.clean else self.clean_tree(2, rng.random() < 0.8)
                 if rng.random() < 0.97:
                     t = no_self(t, k)
                 st['pairs'].append([k, t])
                 bound(k, k in self.tainted or self.taints(t))
+                self.types.setdefault(k, self.type_of(t))
         elif kind == 'py':
-            k = self.target(in_keys)
+            is_append = rng.random() < 0.65
+            k = self.target(in_keys, 'l' if is_append else 'd')
             own = dict((kk, v) for kk, v in st['in'])
-            if rng.random() < 0.65:
+            if is_append:
                 st['code'] = ['append', k, rng.randint(0, 9)]
                 ok_retry = k in own and isinstance(own[k], dict) and 'l' in own[k]
             else:
@@ -161,6 +183,7 @@ class Gen:
                 src = self.pick_key(0.95)
                 st['pairs'].append([k, src])
                 bound(k, src in self.tainted)
+                self.types[k] = self.types.get(src, '?')
         # in keys are removed after the step (when it succeeds)
         self.known = [k for k in after_known if k not in in_keys]
         self.tainted = {k for k in after_taint if k not in in_keys}
@@ -172,13 +195,15 @@ class Gen:
 
 
 def gen_case(rng, tier='quick', threads=False):
-    clean = threads or rng.random() < 0.4
+    clean = (threads and rng.random() < 0.75) or rng.random() < 0.4
     dict_in = [[k, data_tree(rng, 2, True)] for k in rng.sample(DATA_KEYS, rng.choice([0, 1, 1, 2]))]
     vars_ = [[k, data_tree(rng, 2, True)] for k in rng.sample(VAR_KEYS, rng.choice([0, 1, 2]))]
     case = {'dict_in': dict_in, 'vars': vars_, 'shortcut': (not threads) and rng.random() < 0.2}
     for pname, (lo, hi) in (('main', (1, 5)), ('other', (1, 3))):
         g = Gen(rng, clean)
         g.known = [k for k, _ in dict_in]
+        g.types = {k: g.type_of(v) for k, v in dict_in}
+        g.types.update({k: g.type_of(v) for k, v in vars_})
         case[pname] = [g.step() for _ in range(rng.randint(lo, hi))]
     if threads:
         n0, n1 = len(case['main']), len(case['other'])
